@@ -221,8 +221,13 @@ def run_edge(case, ctx):
         ctx.violation("C08/edge/one_dimensional_fill", "fill with 1-d data must leave the tree untouched", **base)
         return
     P.fill(X.copy(), "t")
+    read_before = (P.leaf_counts("t"), P.kl_distance("build", "t"))  # queries before the reset must not be remembered
     v = int(rng.integers(0, 9))
     P.reset(value=v, tree_id="t")
+    lc = P.leaf_counts("t")
+    if list(lc) != [v] * len(P.leaves) or not close(P.kl_distance("build", "t"), K.kl_counts(before, [v] * len(before)), 1e-9, 1e-12):
+        ctx.violation("C08/edge/reset_queries", "after reset(value=%d, tree_id='t') leaf_counts('t') is %r and kl_distance does not follow the tree's counts" % (v, list(lc)[:8]), **base)
+        return
     pairs = pair_nodes(P.node, mroot, [])
     if any(nd.num_samples_in_compared_subtrees.get("t") != v for nd, _ in pairs) or [l.num_samples_in_compared_subtrees.get("build") for l in P.leaves] != before:
         ctx.violation("C08/edge/reset", "reset(value=%d, tree_id='t') must set every node's count for 't' to %d and leave other ids alone" % (v, v), **base)
